@@ -12,23 +12,23 @@ CHECKS = {
     "C02": ("CrossHair/z3 exploration of API histories after a commit (18 actions, sequences of 3) on the real IH5Record/IH5MFRecord over an in-memory file system with a byte-level frame oracle on every committed container and manifest sidecar, plus the one-write-step obligation of the overlay harness (writes land in the newest container only)",
             "trusted: substrate (conformance-tested); abstract payload bytes change iff an HDF5-level write happened; action choices realised by solver-driven branching, real code then runs on concrete state; counterexamples replayed on real h5py files",
             "4/C02"),
-    "C03": ("CrossHair/z3 symbolic execution of the real IH5Record/IH5MFRecord __init__ mode dispatch, _open, _create, discard_patch, find_files, list_records with a symbolic mode string (any string of length <=2), 6 on-disk situations, every file order, prefix-related record names, against the h5py.File mode table",
+    "C03": ("CrossHair/z3 symbolic execution of the real IH5Record/IH5MFRecord __init__ mode dispatch, _open, _create, discard_patch, find_files, list_records with a symbolic mode string (any string of length <=2), 6 on-disk situations, every file order, prefix-related record names, against the h5py.File mode table (read-only enforcement also through node.file handles; discard with nothing pending); record-name validity as a direct z3 regex query on the pattern and re function the real code uses, with Python's anchor semantics",
             "trusted: substrate (conformance-tested incl. file modes/user blocks); mode table written from the h5py.File documentation; bounds: mode strings <=2 chars, <=3 containers, names <=2 chars over {a,b,-,1}; counterexamples replayed on real h5py files",
             "4/C03"),
-    "C04": ("CrossHair/z3 symbolic execution of the real IH5Record._open/_check_ublock (and IH5MFRecord overrides) on stand-in user blocks with symbolic record ids, patch indices, uuids and predecessor links (1..3 files, any order, every hash-verdict combination) against an independently written coherence predicate",
+    "C04": ("CrossHair/z3 symbolic execution of the real IH5Record._open/_check_ublock (and IH5MFRecord overrides) on stand-in user blocks with symbolic record ids, patch indices, uuids and predecessor links (1..3 files, any order, every hash-verdict combination) against an independently written coherence predicate; plus manifest histories through the public API (edited sidecar of the newest committed container refused, also under an uncommitted patch)",
             "trusted: SHA-256 detects payload modification (hash oracle is a per-file verdict); stand-in user blocks; counterexamples replayed with real user blocks on real h5py files",
             "4/C04"),
     "C05": ("CrossHair/z3 exploration of symbolic container stacks written as records (real user blocks) on the in-memory file system and merged by the real merge_files/h5_copy_from_to: merged view == source view == fold(stack); chain identity; source unchanged; follow-up patch applies alike; counterexamples replayed as public-API histories on real h5py",
             "trusted: substrate (conformance-tested), fold, Inv; kinds enumerated by solver-driven realisation; bounds: 2 containers over {a,a/x,a@k}, 3 over {a,a/x}; 8 follow-up operations; IH5Record + IH5MFRecord",
             "4/C05"),
     "C10": ("CrossHair/z3 exploration of symbolic container stacks written as IH5MFRecord records on the in-memory file system through the real skeleton.py/manifest.py: stub skeleton == real, no data in the stub, merge refused, stub-made patch == direct update on the real record, manifest sidecar == container (hash, uuid, skeleton) after every commit, extensions persist; counterexamples replayed as public-API histories on real h5py",
-            "trusted: substrate (conformance-tested), fold/Inv; kinds enumerated by solver-driven realisation; bounds: 2 containers over {a,a/x,a@k}, 10 existence-based updates",
+            "trusted: substrate (conformance-tested), fold/Inv; kinds enumerated by solver-driven realisation; bounds: 2 containers over {a,a/x,a@k}, 12 existence-based updates; manifest histories of 3 steps over 7 actions (commit, override, interrupted patch reopened r+/a/r, discard, close+reopen) x tamper",
             "4/C10"),
     "C11": ("CrossHair/z3 exploration with a symbolic crash point: torn user-block write at every cut through the real IH5UserBlock.load/_open, and simulated process death at every mutating file-system primitive during create/fill/commit of a patch through the real IH5Record/IH5MFRecord; byte identity of committed files + three-way outcome oracle",
             "trusted: substrate with crash injection; prefix model of the user-block write; SHA-256 idealised; kills inside HDF5 library writes and fsync/reordering effects are outside; torn-write counterexamples replayed on real h5py files",
             "4/C11"),
     "C06": ("CrossHair/z3 exploration of all bounded sequences of container actions (symbolic action choices realised by solver-driven branching) on the real MetadorContainer/MetadorMeta/TOCLinks/TOCSchemas/TOCPackages stack over the in-memory substrate, both drivers, with patch boundaries and reopen points; after every action raw-tree bookkeeping invariants + reference model; counterexamples replayed on real h5py files",
-            "trusted: substrate (conformance-tested); the real code runs natively once choices are concrete (the TOC stack cannot be traced by CrossHair: DESIGN 9); bounds: 26 actions, sequences of 3 (plain driver) / 2 (IH5), three installed schemas, start state d, g, g/e",
+            "trusted: substrate (conformance-tested); the real code runs natively once choices are concrete (the TOC stack cannot be traced by CrossHair: DESIGN 9); bounds: 29 actions, sequences of 3 (plain driver) / 2 (IH5), three installed schemas, start state d, g, g/e",
             "9 (deviation), 4/C06"),
     "C07": ("CrossHair/z3: symbolic schema versions through the real MetadorMeta.query/_get_raw + TOCSchemas.versions/children + PluginRef.supports against a brute-force specification; plus bounded container action sequences (C06 harness) with a reference model of attached metadata (equality of returned objects, parent views, one per schema, exact queries)",
             "trusted: stand-in node/TOCSchemas for the kernel; substrate for sequences; bounds: versions in {0,1}^2 per ref, sequences of 2 actions on both drivers",
@@ -39,24 +39,24 @@ CHECKS = {
     "C08": ("CrossHair/z3 symbolic execution of the real MetadorGroup wrapper methods (path guard on every protocol method, enumerated at run time), listing filters and meta-path algebra with structured symbolic reserved paths/names around a recording raw group",
             "trusted: CrossHair/z3 string theory; recording raw mocks; clause (d) (bookkeeping never disturbs user data) is outside (C06); bounds: free parts of paths <=2 chars, 2 symbolic children per listing, canonical paths <=5 chars",
             "4/C08"),
-    "C15": ("CrossHair/z3 symbolic execution of the real ACL code (MetadorNode/Group/Dataset, WrappedAttributeManager, MetadorMeta guards) with the three flags as symbolic booleans: one-step induction over 22 navigation primitives (parent/file applied to every derived node), 22 mutators, 14 readers, restrict() monotonicity",
-            "trusted: recording raw mocks instead of h5py nodes; induction argument (I1)+(I2)+(I3) for chains of any length; soft restrictions (private attributes) outside",
+    "C15": ("CrossHair/z3 symbolic execution of the real ACL code (MetadorNode/Group/Dataset, WrappedAttributeManager, MetadorMeta guards) with the three flags as symbolic booleans: one-step induction over 22 navigation primitives (parent/file applied to every derived node), 22 mutators, 14 readers, restrict() monotonicity; plus a navigation closure on the real container stack (real query/metadata, both drivers, start node and flags solver-chosen, chains <=3, every mutator/reader on every node reached, children restricted further)",
+            "trusted: recording raw mocks instead of h5py nodes for the one-step harnesses, in-memory substrate for the closure (counterexamples replayed on real h5py files); induction argument (I1)+(I2)+(I3) for chains of any length; soft restrictions (private attributes) outside",
             "4/C15"),
     "C09": ("same (W) obligation as C01 with the plain substrate file as third party: every raw protocol operation succeeds/fails alike and leaves the same tree for any patch-boundary placement; protocol members enumerated from util/types.py",
-            "trusted: as C01; driver level only (container-level metadata/query lock-step is outside, see C06); exception classes not compared",
+            "trusted: as C01; container level: action sequences of 2 (thorough 3) through both drivers against one reference model, file-level members declared as supported exercised on both; exception classes not compared",
             "4/C09"),
     # id: (technique, level_note, design_ref)
-    "C16": ("CrossHair symbolic execution of PluginRef/PluginGroup/register_in_group/ep-name codec + z3 regex-inclusion lemmas generated from the repo's regex constants",
+    "C16": ("CrossHair symbolic execution of PluginRef/PluginGroup/register_in_group/ep-name codec + z3 regex-inclusion lemmas generated from the repo's regex constants (incl. canonical version components); marker routes through names, tuples, refs and handles as keys, for the schema, harvester and packer groups",
             "trusted: CrossHair 0.0.110 + z3 5.1 models of CPython str/int/tuple; launcher shims (DESIGN 2); PluginRef.construct stand-ins; _load_plugin stubbed; bounds: strings<=2, <=3 registrations, versions 0..1 (0..2 thorough), codec components 0..999",
             "4/C16"),
-    "C14": ("CrossHair symbolic execution of the real PartialModel merge code (symbolic field values, unbounded ints) against a reference merge; pure-Python pydantic build so values stay symbolic through validation",
+    "C14": ("CrossHair symbolic execution of the real PartialModel merge code (symbolic field values, unbounded ints) against a reference merge; pure-Python pydantic build so values stay symbolic through validation; plus installed schemas (nested objects from versioned / version-less plugin handles, native after realisation)",
             "trusted: CrossHair/z3 models of list/set/dict/str/int; pure-Python pydantic 1.10 sources == compiled build; construct() stand-ins; repr() in partial.py stubbed (message formatting); bounds: strings<=2, lists<=2, sets<=2, 2-3 operands, model family defined in the harness",
             "4/C14"),
     "C18": ("CrossHair symbolic execution of the real DiffNode.compare/nodes/status/_type and DirDiff.get over symbolic directory-tree pairs against a changed-path-set oracle and an ordered-replay oracle",
             "trusted: CrossHair/z3 models of dict/set/str/pathlib; stand-in node class re-using DiffNode's real functions (cross-checked natively; a subset of partitions runs the real pydantic model on the pure-Python pydantic build); bounds: universe a,b,a/x,a/y (thorough: +a/x/p,b/x), leaf strings length 1 (thorough 2)",
             "4/C18"),
     "C19": ("CrossHair symbolic execution of the real hashsum chunk loop (symbolic content + short-read schedule, recording hash) and dir_hashsums/rel_symlink over an in-memory directory with symbolic entry kinds, contents, link targets and visiting order; counterexamples replayed on a real temp directory with real hashlib",
-            "trusted: SHA-256 injectivity (recording hash stands in); in-memory directory stub (validated natively against a real directory); no link chains; bounds: <=3 entries (a,d,d/x) or 2x2 entries, 3 contents, 5 link targets, content <=4 bytes",
+            "trusted: SHA-256 injectivity (recording hash stands in); in-memory directory stub (validated natively against a real directory); link chains followed like pathlib (cycles outside); bounds: <=3 entries (a,d,d/x) or 2x2 entries, 3 contents, 5 link targets, content <=4 bytes",
             "4/C19"),
 }
 
